@@ -136,12 +136,19 @@ def build(root: Path) -> None:
     (root / "array.json").write_text('[{"nesting": {"max_nesting_depth": 3}}]\n')
 
 
+# a command's own option given a value outside its domain (type or choice)
+BAD_VALUE = {"nesting": ["--max-depth", "deep"], "srp": ["--max-methods", "many"], "dry": ["--min-lines", "few"],
+             "perf": ["--rule", "no-such-rule"], "pipeline": ["--min-continues", "2.5"]}
+
+
 def argv_for(cmd: str, fault: str, inp: str, fmt: str) -> tuple[list[str], str]:
     """(argv after the command name, cwd-relative project dir)."""
     tgt = {"zero": ["empty_dir"], "file": TRIGGER[cmd], "dir": ["."], "hostile": ["hostile"]}[inp]
     pre = ["--format", fmt]
     if fault == "badOption":
         return pre + ["--no-such-option"] + tgt, "proj"
+    if fault == "badOptionValue":
+        return pre + BAD_VALUE[cmd] + tgt, "proj"
     if fault == "badFormat":
         return ["--format", "xml"] + tgt, "proj"
     if fault == "missingPath":
@@ -266,7 +273,7 @@ def run(chk) -> None:
                        "text rendering is matched block-wise against the JSON violations in the documented "
                        "two-line shape (column omitted when 0)"]
     r = tlc.run("Run", "mc/Run.cfg", workers=1, timeout=300)
-    chk.add_tlc("Run exhaustive (12 faults x 4 inputs x 3 formats)", r)
+    chk.add_tlc("Run exhaustive (13 faults x 4 inputs x 3 formats x verbose)", r)
     if r.violation:
         raise MachineryError("Run.tla invariants violated:\n" + r.stdout[-1500:])
     cases = tlc.parse_cases(r.stdout)
@@ -276,7 +283,9 @@ def run(chk) -> None:
     jobs = []
     for cmd in cmds:
         for fault, inp in pairs:
-            if quick and fault != "none" and (hash((cmd, fault)) % 2) and cmd not in ("nesting", "dry"):
+            if fault == "badOptionValue" and cmd not in BAD_VALUE:
+                continue
+            if quick and fault not in ("none", "badOptionValue") and (hash((cmd, fault)) % 2) and cmd not in ("nesting", "dry"):
                 continue
             jobs.append({"cmd": cmd, "fault": fault, "input": inp})
             # the same invocation with the global --verbose flag: for every error class (rotating over the commands in
